@@ -62,6 +62,7 @@ type Term struct {
 	U     uint64 // value of a BV constant (W<=64) or 0/1 for Bool, raw bits for FP constants
 	Str   string // value of a String constant
 	size  int    // rough node count
+	widened bool // term is an exact float32->float64 widening of its argument
 }
 
 func (t *Term) String() string { return t.S }
@@ -345,6 +346,11 @@ func bvBin(op string, a, b *Term) *Term {
 			}
 		}
 	}
+	if b.Const && !a.Const && !noDivRewrite {
+		if r := divByConstPow2(op, a, b); r != nil {
+			return r
+		}
+	}
 	// cheap identities
 	switch op {
 	case "bvadd", "bvor", "bvxor":
@@ -586,9 +592,15 @@ func FPConvert(a *Term, to int) *Term {
 		return F64C(float64(math.Float32frombits(uint32(a.U))))
 	}
 	if to == 32 {
+		// float32(float64(f32)) == f32 exactly (widening is exact; SMT-LIB has a single NaN)
+		pre := "((_ to_fp 11 53) " + rne + " "
+		if strings.HasPrefix(a.S, pre) && a.widened {
+			inner := a.S[len(pre) : len(a.S)-1]
+			return &Term{Sort: F32Sort, S: inner, size: a.size - 1}
+		}
 		return &Term{Sort: F32Sort, S: fmt.Sprintf("((_ to_fp 8 24) %s %s)", rne, a.S), size: a.size + 1}
 	}
-	return &Term{Sort: F64Sort, S: fmt.Sprintf("((_ to_fp 11 53) %s %s)", rne, a.S), size: a.size + 1}
+	return &Term{Sort: F64Sort, S: fmt.Sprintf("((_ to_fp 11 53) %s %s)", rne, a.S), size: a.size + 1, widened: true}
 }
 
 func IntToFP(a *Term, signed bool, to int) *Term {
@@ -713,3 +725,62 @@ func StrFromByte(b *Term) *Term {
 }
 
 var _ = big.NewInt
+
+// noDivRewrite disables divByConstPow2 (used by the self-test that validates the rewrite).
+var noDivRewrite = false
+
+// divByConstPow2 rewrites division/remainder by a constant ±2^k into shifts and masks.  z3 4.8.12
+// bit-blasts a full divider for bvsdiv even when the divisor is constant (3–7 s per 64-bit query);
+// the rewritten form is decided in milliseconds.  The identities are re-proved by `gosym selftest`
+// (against the solvers' own bvsdiv/bvsrem) for every width and k.
+func divByConstPow2(op string, x, c *Term) *Term {
+	w := x.Sort.W
+	switch op {
+	case "bvudiv", "bvurem":
+		v := c.U
+		if v == 0 || v&(v-1) != 0 {
+			return nil
+		}
+		k := uint64(0)
+		for (uint64(1) << k) != v {
+			k++
+		}
+		if op == "bvudiv" {
+			return bvBin("bvlshr", x, BVC(w, k))
+		}
+		return bvBin("bvand", x, BVC(w, v-1))
+	case "bvsdiv", "bvsrem":
+		sv := sext(w, c.U)
+		neg := sv < 0
+		mag := uint64(sv)
+		if neg {
+			mag = uint64(-sv) & mask(w)
+		}
+		if mag == 0 || mag&(mag-1) != 0 {
+			return nil
+		}
+		k := uint64(0)
+		for (uint64(1) << k) != mag {
+			k++
+		}
+		zero := BVC(w, 0)
+		xneg := bvCmp("bvslt", x, zero)
+		if op == "bvsdiv" {
+			if int(k) == w-1 { // divisor is MinInt
+				return Ite(Eq(x, c), BVC(w, 1), zero)
+			}
+			q := Ite(xneg, BVNeg(bvBin("bvlshr", BVNeg(x), BVC(w, k))), bvBin("bvlshr", x, BVC(w, k)))
+			if neg {
+				return BVNeg(q)
+			}
+			return q
+		}
+		// remainder: sign follows the dividend, magnitude |x| mod |c|
+		if int(k) == w-1 {
+			return Ite(Eq(x, c), zero, x)
+		}
+		m := BVC(w, mag-1)
+		return Ite(xneg, BVNeg(bvBin("bvand", BVNeg(x), m)), bvBin("bvand", x, m))
+	}
+	return nil
+}
